@@ -107,6 +107,34 @@ func (c *Ctx) intrinsic(fn *ssa.Function, name string, args []Value) (Value, boo
 	case "verifReach":
 		c.reached[c.strArg(args[0])] = true
 		return nil, true
+	case "verifShared":
+		// verifShared(p): p points to the object whose scalar fields are shared between threads
+		if c.rec != nil {
+			v := args[0]
+			if i, ok := v.(Iface); ok {
+				v = i.V
+			}
+			if p, ok := v.(Ptr); ok {
+				c.rec.shared = p.C
+			}
+		}
+		return nil, true
+	case "verifEvent":
+		if c.rec != nil {
+			c.concEvent(ConcEvent{Kind: "mark", Tag: c.strArg(args[0])})
+		}
+		return nil, true
+	case "verifYield":
+		if c.rec != nil {
+			c.rec.yielded = true
+		}
+		return nil, true
+	case "verifHavocBool":
+		if c.rec != nil {
+			v, _ := c.concSym("hv", "Bool")
+			return v, true
+		}
+		return Var(c.freshName("hvb"), SBool), true
 	case "verifChoice":
 		nm := c.strArg(args[0])
 		n, _ := c.constInt(args[1].(*Term), true)
@@ -1028,14 +1056,34 @@ func registerLibModels() {
 		c.abort("exit", "os.Exit")
 		return nil
 	}
-	m["(*sync.Mutex).Lock"] = nop
-	m["(*sync.Mutex).Unlock"] = nop
+	m["(*sync.Mutex).Lock"] = func(c *Ctx, fn *ssa.Function, a []Value) Value {
+		if c.rec != nil {
+			c.concEvent(ConcEvent{Kind: "mu_lock", Field: c.concObj(a[0].(Ptr))})
+		}
+		return nil
+	}
+	m["(*sync.Mutex).Unlock"] = func(c *Ctx, fn *ssa.Function, a []Value) Value {
+		if c.rec != nil {
+			c.concEvent(ConcEvent{Kind: "mu_unlock", Field: c.concObj(a[0].(Ptr))})
+		}
+		return nil
+	}
 	m["(*sync.RWMutex).Lock"] = nop
 	m["(*sync.RWMutex).Unlock"] = nop
 	m["(*sync.RWMutex).RLock"] = nop
 	m["(*sync.RWMutex).RUnlock"] = nop
 	m["(*sync.Once).Do"] = func(c *Ctx, fn *ssa.Function, a []Value) Value {
 		p := a[0].(Ptr)
+		if c.rec != nil {
+			// the thread may or may not be the first caller: fork on a fresh symbol
+			first, name := c.concSym("once", "Bool")
+			c.concEvent(ConcEvent{Kind: "once_begin", Field: c.concObj(p), Sym: name})
+			if c.decide(first) {
+				c.callValue(a[1], nil, nil)
+				c.concEvent(ConcEvent{Kind: "once_end", Field: c.concObj(p)})
+			}
+			return nil
+		}
 		if c.onceDone[p.C] {
 			return nil
 		}
@@ -1083,14 +1131,26 @@ func registerLibModels() {
 		if !ok {
 			c.unsupported("sync.WaitGroup.Add of a symbolic delta")
 		}
+		if c.rec != nil {
+			c.concEvent(ConcEvent{Kind: "wg_add", Field: c.concObj(a[0].(Ptr)), N: d})
+			return nil
+		}
 		wgAdd(c, a[0].(Ptr), d)
 		return nil
 	}
 	m["(*sync.WaitGroup).Done"] = func(c *Ctx, fn *ssa.Function, a []Value) Value {
+		if c.rec != nil {
+			c.concEvent(ConcEvent{Kind: "wg_add", Field: c.concObj(a[0].(Ptr)), N: -1})
+			return nil
+		}
 		wgAdd(c, a[0].(Ptr), -1)
 		return nil
 	}
 	m["(*sync.WaitGroup).Wait"] = func(c *Ctx, fn *ssa.Function, a []Value) Value {
+		if c.rec != nil {
+			c.concEvent(ConcEvent{Kind: "wg_wait", Field: c.concObj(a[0].(Ptr))})
+			return nil
+		}
 		if c.wgs[c.ptrKey(a[0].(Ptr))] > 0 {
 			c.abort("deadlock", "sync.WaitGroup.Wait with a positive counter and nobody left to call Done")
 		}
